@@ -475,9 +475,74 @@ def _reads_shard(_):
     return acc
 
 
+def _reach_shard(_):
+    """Structural form of the property, for all nine kinds: no mutable object (array memory, list, item
+    object, viewport ...) is reachable from two separately created blocks, nor from two items of one
+    decoded block.  Every in-place edit goes through such an object."""
+    from .. import kdriver, reach
+
+    acc = core.Acc()
+    for t in R.WRITABLE:
+        for v in (0, 1, 2):
+            sp = kdriver._variants(t)[v]
+            fmt = sp["format"]
+            ref_bytes = R.encode_block(sp)
+
+            def build():
+                return specs.build(sp)
+
+            def decode(data=None):
+                return specs.lib_decode(t, fmt, data if data is not None else ref_bytes)[0]
+
+            def used_then_empty():
+                x = build()
+                editwalk.scribble(x)
+                specs.lib_encode(x)
+                return specs.build(kdriver._variants(t)[2])
+
+            makers = {"built": build, "decoded": decode, "decoded-from-own-bytes": lambda: decode(specs.lib_encode(build())),
+                      "empty-after-use": used_then_empty}
+            for na, nb in (("built", "built"), ("decoded", "decoded"), ("built", "decoded"), ("decoded", "decoded-from-own-bytes"),
+                           ("empty-after-use", "empty-after-use"), ("built", "empty-after-use")):
+                acc.n["states"] += 1
+                acc.n["evaluations"] += 1
+                acc.n["transitions"] += 2
+                if v < 2:
+                    acc.n["nontrivial"] += 1
+                wit = {"reach": [t, v, na, nb]}
+                try:
+                    a, b = makers[na](), makers[nb]()
+                    sh = reach.shared(a, b)
+                    inner = []
+                    if nb.startswith("decoded"):
+                        items = editwalk.lib_items(b, t)
+                        for i in range(len(items)):
+                            for j in range(i + 1, len(items)):
+                                inner += [(f"item {i}{x}", f"item {j}{y}", w) for x, y, w in reach.shared(items[i], items[j])]
+                except Exception as e:  # noqa: BLE001
+                    acc.violation("slot-unusable", f"{PROP}:reach:{R.NAMES[t]}:{type(e).__name__}", wit, f"{R.NAMES[t]} variant {v} {na}/{nb}: {type(e).__name__}: {e}")
+                    continue
+                if sh:
+                    pa, pb, what = sh[0]
+                    acc.violation("instances-share-mutable-object", f"{PROP}:reach:{R.NAMES[t]}:{na}/{nb}:{what}", wit,
+                                  f"{R.NAMES[t]} (variant {v}): a {na} block and a separately {nb} block both reach the same {what}: "
+                                  f"first{pa} / second{pb} ({len(sh)} shared in all)")
+                elif inner:
+                    pa, pb, what = inner[0]
+                    acc.violation("items-share-mutable-object", f"{PROP}:reach:{R.NAMES[t]}:items:{what}", wit,
+                                  f"{R.NAMES[t]} (variant {v}, {nb}): {pa} and {pb} reach the same {what}")
+                else:
+                    acc.outcomes[f"reach:{na}/{nb}:disjoint"] += 1
+                    acc.n["traces"] += 1
+    acc.sample({"reach": "9 kinds x 3 variants x 6 pairs of separately created blocks: sets of reachable mutable objects are disjoint"}, 1)
+    return acc
+
+
 def _shard(shard):
     if shard == "reads":
         return _reads_shard(shard)
+    if shard == "reach":
+        return _reach_shard(shard)
     t, nslots = shard
     acc = core.Acc()
     depth = {"quick": 5, "thorough": 6}[_shard.tier]
@@ -492,13 +557,19 @@ def _shard(shard):
 def run(tier):
     _shard.tier = tier
     ns = 2 if tier == "quick" else 3
-    shards = ["reads"] + [(t, 2) for t in TYPES] + ([(t, 3) for t in TYPES] if ns == 3 else [])
+    shards = ["reads", "reach"] + [(t, 2) for t in TYPES] + ([(t, 3) for t in TYPES] if ns == 3 else [])
     return core.pmap(__name__, "_shard", shards)
 
 
 def replay(w):
     if w.get("reads"):
         acc = _reads_shard(None)
+        for v in acc.violations:
+            if v["witness"] == w:
+                return core.Violation(v["clause"], v["sig"], w, v["detail"])
+        return None
+    if w.get("reach"):
+        acc = _reach_shard(None)
         for v in acc.violations:
             if v["witness"] == w:
                 return core.Violation(v["clause"], v["sig"], w, v["detail"])
